@@ -712,6 +712,8 @@ http_hdr_val_get_ex(const uint8_t *http_hdr, size_t hdr_size,
 	name = mem_find_off_cstr(offset, http_hdr, hdr_size, CRLF);
 	http_hdr_end = (http_hdr + hdr_size);
 	for (; NULL != name; name = separator) {
+		if (http_hdr_end == name) /* Last field reach end of buf. */
+			return (ESPIPE);
 		name += 2; /* 2 = separator=CRLF skip. */
 		/* ':' - after value name. */
 		val = mem_chr_ptr(name, http_hdr, hdr_size, ':');
@@ -865,6 +867,8 @@ http_query_val_get_ex(const uint8_t *query, size_t query_size,
 		val ++; /* Skip '&' in buf start. */
 	}
 	for (;;) {
+		if (query_max <= val) /* No more data. */
+			return (ESPIPE);
 		val_end = mem_chr_ptr((val + 1), query, query_size, '=');
 		if (NULL == val_end)
 			return (ESPIPE);
